@@ -150,7 +150,11 @@ impl<R: BufRead + Seek + Position> ReadValue for ValueReader<R> {
     }
 
     fn skip(&mut self, len: usize) -> Result<(), ProtobufError> {
-        self.inner.seek_relative(len as i64)?;
+        // A length that does not fit in an `i64` cannot be a valid field
+        // length. Converting it with `as` would produce a negative offset and
+        // seek backwards.
+        let offset = i64::try_from(len).map_err(|_| ProtobufError::new(ErrorKind::Eof))?;
+        self.inner.seek_relative(offset)?;
         Ok(())
     }
 
@@ -254,24 +258,25 @@ impl<'a, R: ReadValue> LimitReader<'a, R> {
     /// Create a reader which reads up to `len` bytes of `inner`.
     pub fn new(inner: &'a mut R, len: u64) -> Self {
         Self {
-            end: inner.position() + len,
+            end: inner.position().saturating_add(len),
             inner,
         }
     }
 
     /// Create a sub-reader which reads up to `len` bytes of this reader.
+    ///
+    /// The sub-reader never extends beyond the end of this reader.
     pub fn sub_limit(&mut self, len: u64) -> LimitReader<'_, R> {
         LimitReader {
-            end: self.inner.position() + len,
+            end: self.inner.position().saturating_add(len).min(self.end),
             inner: self.inner,
         }
     }
 
     fn check_has_bytes(&self, len: usize) -> Result<(), ProtobufError> {
-        if self.position() + (len as u64) <= self.end {
-            Ok(())
-        } else {
-            Err(ProtobufError::new(ErrorKind::Eof))
+        match self.position().checked_add(len as u64) {
+            Some(end) if end <= self.end => Ok(()),
+            _ => Err(ProtobufError::new(ErrorKind::Eof)),
         }
     }
 }
